@@ -1769,3 +1769,52 @@ func checkMenuItemsEmptiedAfterExpansion(w *core.World, r *core.Report, rule str
 	}
 	r.Floor(rule, "expansion sites (calls of ToLines in package asm)", n, 1)
 }
+
+// checkLookupKeysShareNoMemory (C10 R15): ToKey hands every back end two byte strings, the default
+// key and the translation key. The filesystem back end rewrites the first byte of each in place
+// when it maps them to file names; the others use them as they are. The back ends only agree if
+// the two keys share no memory: no value stored to LookupKey.Translation is the result of an
+// append whose destination derives from the value of LookupKey.Default (spare capacity makes the
+// two alias), and vice versa.
+func checkLookupKeysShareNoMemory(w *core.World, r *core.Report, rule string) {
+	n := 0
+	bad := ""
+	var badPos token.Pos
+	for _, fn := range w.FuncsIn("db") {
+		var defVals []ssa.Value
+		var stores []*ssa.Store
+		for _, in := range allInstrs(fn) {
+			if st, ok := in.(*ssa.Store); ok {
+				if tn, f, ok := core.FieldOfAddr(st.Addr); ok && tn == "db.LookupKey" && (f == "Default" || f == "Translation") {
+					stores = append(stores, st)
+					defVals = append(defVals, st.Val)
+				}
+			}
+		}
+		for _, st := range stores {
+			n++
+			r.Touch(core.QName(fn))
+			_, f, _ := core.FieldOfAddr(st.Addr)
+			for _, src := range core.Sources(st.Val) {
+				c, ok := src.(*ssa.Call)
+				if !ok || !core.IsCallTo(c, "builtin.append") || len(c.Call.Args) == 0 {
+					continue
+				}
+				for _, d := range core.Sources(c.Call.Args[0]) {
+					if _, f2, ok := core.LoadedField(d); ok && (f2 == "Default" || f2 == "Translation") && f2 != f {
+						bad = fmt.Sprintf("%s: LookupKey.%s is append(LookupKey.%s, ...) at %s", core.QName(fn), f, f2, w.Pos(st.Pos()))
+						badPos = st.Pos()
+					}
+					for _, dv := range defVals {
+						if d == dv && dv != st.Val {
+							bad = fmt.Sprintf("%s: LookupKey.%s is appended to the value stored as the other key at %s", core.QName(fn), f, w.Pos(st.Pos()))
+							badPos = st.Pos()
+						}
+					}
+				}
+			}
+		}
+	}
+	r.Check(bad == "" && n >= 2, rule, "db: the default and the translation key share no memory", badPos, fmt.Sprintf("%d stores to LookupKey.Default/Translation, none appends to the other key", n),
+		"the translation key is built in the spare capacity of the default key: a back end that rewrites a key in place (the filesystem back end shifts the type byte of each) changes both, so the same write lands under another name than the other back ends and the documented layout use: "+bad)
+}
